@@ -236,6 +236,35 @@ def is_remote(e):
     return e.startswith("http://") or e.startswith("https://")
 
 
+ALIASES = [("structure", "deny_file_patterns", "deny_files")]     # KEY_ALIASES of src/config/extends.rs (serde aliases of model.rs)
+
+
+def norm_alias(v):
+    """Fix D67: in a file / remote member of a chain the aliased key is renamed to the canonical one before the
+    merge, unless the member spells the setting both ways (then the typed parse rejects it)."""
+    if v[0] != "t":
+        return v
+    out = dict(v[1])
+    for table, alias, canonical in ALIASES:
+        t = out.get(table)
+        if t is not None and t[0] == "t" and alias in t[1] and canonical not in t[1]:
+            d = dict(t[1])
+            d[canonical] = d.pop(alias)
+            out[table] = ("t", d)
+    return ("t", out)
+
+
+def bad_key(v):
+    """Fixes D66 / D68: the inheritance key of a member that is present but not a string (extends first)."""
+    if v[0] != "t":
+        return None
+    for k in ("extends", "extends_sha256"):
+        e = v[1].get(k)
+        if e is not None and e[0] != "s":
+            return k
+    return None
+
+
 class World:
     """A reference graph: files (by path string as the resolver will spell it), presets, remotes.
     files[path] = (canon | None, ("M",) | ("S",) | ("V", value))
@@ -291,6 +320,7 @@ def spec_resolve(w, path, no_extends, maxd=MAXD_DEFAULT):
         return ("OK", strip_markers(leaf) if has_any_marker(leaf) else leaf, None)
     if canon is None:
         return ("ERR", "FileAccess", path)
+    leaf = norm_alias(leaf)
     members = [leaf]          # leaf first
     visited = [canon]
     base_path = path
@@ -298,6 +328,9 @@ def spec_resolve(w, path, no_extends, maxd=MAXD_DEFAULT):
     preset = None
     cur = leaf
     while True:
+        bk = bad_key(cur)
+        if bk is not None:
+            return ("ERR", "BadKey", bk)
         e = _ext_of(cur)
         if e is None:
             break
@@ -320,7 +353,7 @@ def spec_resolve(w, path, no_extends, maxd=MAXD_DEFAULT):
                 return ("ERR", "Remote", r[1])
             if r[0] == "S":
                 return ("ERR", "Syntax", e)
-            cur = r[1]
+            cur = norm_alias(r[1])
             base_path = None
         else:
             if e.startswith("/"):
@@ -341,7 +374,7 @@ def spec_resolve(w, path, no_extends, maxd=MAXD_DEFAULT):
             if c in visited:
                 return ("ERR", "Circular", visited + [c])
             visited.append(c)
-            cur = body[1]
+            cur = norm_alias(body[1])
             base_path = p
         members.append(cur)
     # members: leaf .. base ; every non-preset member must be well-formed on its own
@@ -638,8 +671,9 @@ def config_doc(rng, markers=True, rich=1.0):
             s["max_dirs"] = ("i", rng.choice([5, 10]))
         if rng.random() < 0.2:
             s["max_depth"] = ("i", rng.choice([3, 8]))
-        if rng.random() < 0.4:
-            s["deny_files"] = str_array(rng, ["*.bak", "*.tmp", ".DS_Store"], markers)
+        if rng.random() < 0.5:
+            # the canonical key or its serde alias (fix D67: both must fold into one setting across members)
+            s[rng.choice(["deny_files", "deny_files", "deny_file_patterns"])] = str_array(rng, ["*.bak", "*.tmp", ".DS_Store"], markers)
         if rng.random() < 0.5:
             s["rules"] = rule_array(rng, structure_rule, "scope", markers)
         d["structure"] = ("t", s)
@@ -788,15 +822,32 @@ def gen_world(rng, presets, docgen, kind=None):
             v[1]["extends_sha256"] = ("s", sha256_hex(w.remotes[url]))
         elif r3 < 0.5:
             v[1]["extends_sha256"] = ("s", "0" * 64)
+        elif r3 < 0.6:
+            v[1]["extends_sha256"] = rng.choice([("i", 12345), ("b", True), ("a", [])])     # D66: a pin that is not a string
+            tag = "remote-nonstring-pin"
         nodes[p] = v
         leaf = p
     else:  # odd: non-string extends, extends on a leaf with no-extends flag, syntax errors, symlink aliases
         p = "/w/leaf.toml"
         v = docgen(rng)
         r = rng.random()
-        if r < 0.3:
+        if r < 0.15:
             v[1]["extends"] = rng.choice([("i", 5), ("b", True), ("a", [("s", "/w/b.toml")]), ("t", {})])
             tag = "odd-nonstring-extends"
+        elif r < 0.3:
+            # a malformed inheritance key in the leaf (the pin) or in the base (either key)
+            v[1]["extends"] = ("s", "b.toml")
+            b = docgen(rng)
+            bad = rng.choice([("i", 12345), ("b", False), ("a", [("s", "0" * 64)]), ("f", fbits(1.5))])
+            where = rng.choice(["leaf-pin", "base-extends", "base-pin"])
+            if where == "leaf-pin":
+                v[1]["extends_sha256"] = bad
+            elif where == "base-extends":
+                b[1]["extends"] = bad
+            else:
+                b[1]["extends_sha256"] = bad
+            nodes["/w/b.toml"] = b
+            tag = "odd-nonstring-" + where
         elif r < 0.6:
             v[1]["extends"] = ("s", "b.toml")
             nodes["/w/b.toml"] = "S"
@@ -884,7 +935,7 @@ def spec_line(r):
         return "ERR Reset"
     if kind == "Syntax":
         return "ERR Syntax"
-    if kind in ("FileAccess", "Preset", "Resolution"):
+    if kind in ("FileAccess", "Preset", "Resolution", "BadKey"):
         return "ERR %s %s" % (kind, enc(data))
     if kind == "Remote":
         return "ERR Remote %d" % data
